@@ -112,3 +112,12 @@ claim("C18",
       "that re-creates or empties the frame, sampled other pairs (thorough: all pairs, 1500 triples, random to depth 8) over 32 operations; after every step class, "
       "dtypes, listings, dotted access and a nested query on the result; the model must predict every observed typing.",
       NOTE, "Coq proof (typed closure model, induction over chains) + exhaustive-to-depth correspondence check", "DESIGN.md 6/C18")
+claim("C15",
+      "Theorems (Props/C15.v), partial by design: in an explicit object model (objects -> array cells -> immutable storage; the library's writers rebind "
+      "a cell's storage or an object's column, never write into storage) for EVERY well-formed heap and histories of ANY length: pure operations change no "
+      "observation, an element write shows only in holders of the written cell, a rebinding operation only in its target, a deep copy shows the same data "
+      "and is separated from everything, separation is preserved by every step, separated objects never interfere. Which pandas operations share or copy "
+      "cells is pandas' object model (contract). Correspondence: all sequences to length 2 (3 thorough, random to 7) over 31 operations on a family of 9 "
+      "related objects (two family shapes), every live object snapshotted around every step; the last result is probed both ways (write into arguments / "
+      "receiver, write into the result).",
+      NOTE, "Coq proof (object/cell/storage model, separation invariant over histories) + snapshot-all-objects correspondence check", "DESIGN.md 6/C15")
